@@ -275,6 +275,34 @@ def multi_entity_family(cultures):
     return out
 
 
+NUMBER_ENDING = {
+    # "<time> <meeting word> to <hour>, <month> [year]": BaseMergedExtractor.number_ending_regex_match adds the bare hour as
+    # an extra time entity; when the hour also starts a day-first date the two must be resolved by add_to, not both kept
+    'en-us': ('move the %s %s to %d, %s', ['3pm', '10am', '9 am', '11:30'], ['meeting', 'appointment', 'call', 'conference'],
+              ['may 2019', 'sept', 'march 2020', 'january 20']),
+    'de-de': ('verschiebe das %s %s to %d, %s', ['15 uhr', '9 uhr'], ['meeting', 'termin', 'call'], ['mai 2019', 'märz 2020']),
+    'nl-nl': ('verzet de %s %s naar %d, %s', ['15:00', '9:30'], ['vergadering', 'afspraak'], ['mei 2019', 'maart 2020']),
+    'it-it': ('le %s %s alle %d, %s', ['15:00', '9:30'], ['riunione', 'appuntamento'], ['maggio 2019', 'marzo 2020']),
+}
+
+
+def number_ending_family(cultures):
+    out = {}
+    for cul, (tmpl, times, words, dates) in NUMBER_ENDING.items():
+        if cul not in cultures:
+            continue
+        qs = []
+        for i, t in enumerate(times):
+            for j, w in enumerate(words):
+                for k, d in enumerate(dates):
+                    h = [5, 11, 4, 7, 2][(i + j + k) % 5]
+                    qs.append(('number-ending', tmpl % (t, w, h, d)))
+                    if (i + j + k) % 3 == 0:
+                        qs.append(('number-ending', (tmpl % (t, w, h, d)).split(',')[0]))     # the plain case: extra time kept
+        out[cul] = qs
+    return out
+
+
 def build_tasks(ctx, which_units=False):
     from . import recog
     common.setup_repo_imports()
@@ -320,6 +348,10 @@ def build_tasks(ctx, which_units=False):
     multi = multi_entity_family(dcults)
     ctx.extra['multi_entity_family'] = {c: len(q) for c, q in sorted(multi.items())}
     for cul, qs in sorted(multi.items()):
+        for family, q in qs:
+            tasks.append(('DateTime', 'DateTimeModel', cul, q, ref0))
+            fam.append(family)
+    for cul, qs in sorted(number_ending_family(dcults).items()):
         for family, q in qs:
             tasks.append(('DateTime', 'DateTimeModel', cul, q, ref0))
             fam.append(family)
